@@ -153,6 +153,9 @@ pub struct MapRunner<K: KeyT, V: ValT> {
     pub dead: std::collections::BTreeSet<String>,
     /// a leak is legitimate from here on (a drain was forgotten / a destructor panicked)
     pub leak_ok: bool,
+    /// elements handed out by extract_if / drain / into_iter during the current op; owned by the
+    /// caller, so they must survive an unwind out of the op and be dropped quietly afterwards
+    pub stash: Vec<(K, V)>,
 }
 
 pub fn contents<K: KeyT, V: ValT>(m: &M<K, V>) -> RefMap {
@@ -335,6 +338,7 @@ impl<K: KeyT, V: ValT> MapRunner<K, V> {
             live: Default::default(),
             dead: Default::default(),
             leak_ok: false,
+            stash: Vec::new(),
         }
     }
     fn sel(&mut self, tgt: &str) -> (&mut M<K, V>, &mut M<K, V>) {
@@ -658,7 +662,7 @@ impl<K: KeyT, V: ValT> MapRunner<K, V> {
                 "()".into()
             }
             ("extract_if", 1) => {
-                let mut out = Vec::new();
+                let out = &mut self.stash;
                 {
                     let mut e = m.extract_if(pred);
                     for _ in 0..n(0) {
@@ -672,7 +676,7 @@ impl<K: KeyT, V: ValT> MapRunner<K, V> {
                 out.iter().map(|(k, v)| fmt_kv(k, v)).collect::<Vec<_>>().join(",")
             }
             ("drain", 2) => {
-                let mut out = Vec::new();
+                let out = &mut self.stash;
                 {
                     let mut d = m.drain();
                     for _ in 0..n(0) {
@@ -690,7 +694,7 @@ impl<K: KeyT, V: ValT> MapRunner<K, V> {
             }
             ("into_iter", 1) => {
                 let old = std::mem::replace(m, new_map());
-                let mut out = Vec::new();
+                let out = &mut self.stash;
                 {
                     let mut it = old.into_iter();
                     for _ in 0..n(0) {
@@ -752,6 +756,7 @@ impl<K: KeyT, V: ValT> Runner for MapRunner<K, V> {
             Err(p) => panic_class(p),
         };
         quiet();
+        self.stash.clear();
         let mut ret = ret;
         let evs = tape::peek_events();
         let panicked = ret.starts_with("panic");
